@@ -160,7 +160,22 @@ impl<'tcx> Cx<'tcx> {
             }
             _ => {}
         }
+        if let mir::Const::Unevaluated(uv, _) = c.const_ {
+            fields.push(("const_def", s(self.path(uv.def))));
+            if let Some(p) = uv.promoted {
+                fields.push(("promoted", J::Int(p.index() as i128)));
+            }
+        }
         let tenv = ty::TypingEnv::post_analysis(tcx, owner);
+        if let ty::Ref(_, inner, _) = cty.kind() {
+            if inner.is_str() {
+                if let Ok(val) = c.const_.eval(tcx, tenv, rustc_span::DUMMY_SP) {
+                    if let Some(bytes) = val.try_get_slice_bytes_for_diagnostics(tcx) {
+                        fields.push(("str", s(String::from_utf8_lossy(bytes).to_string())));
+                    }
+                }
+            }
+        }
         if let Some(si) = c.const_.try_eval_scalar_int(tcx, tenv) {
             match cty.kind() {
                 ty::Bool => {
@@ -408,6 +423,17 @@ impl<'tcx> Cx<'tcx> {
         }
         fields.push(("debug", J::Arr(dbg)));
 
+        fields.push(("blocks", self.blocks_json(did, body)));
+        let mut promoted = Vec::new();
+        for pb in tcx.promoted_mir(did).iter() {
+            promoted.push(self.blocks_json(did, pb));
+        }
+        fields.push(("promoted", J::Arr(promoted)));
+        obj(fields)
+    }
+
+    fn blocks_json(&self, did: DefId, body: &mir::Body<'tcx>) -> J {
+        let tcx = self.tcx;
         let mut blocks = Vec::new();
         for (_bb, data) in body.basic_blocks.iter_enumerated() {
             let mut stmts = Vec::new();
@@ -542,8 +568,7 @@ impl<'tcx> Cx<'tcx> {
                 ("term", obj(t)),
             ]));
         }
-        fields.push(("blocks", J::Arr(blocks)));
-        obj(fields)
+        J::Arr(blocks)
     }
 }
 
